@@ -135,9 +135,12 @@ def run_chain(lib, chain, pt, fan=False, below=False):
           "below": below, "chain": [e[2] for e in steps], "ev": []}
     v = v0
     for (s, d, name) in steps:
-        ev = {"a": name, "exc": "", "kind": "", "neg": 0, "w": 0, "f": 0, "hp": [0, 0, 0, 0]}
+        ev = {"a": name, "exc": "", "kind": "", "neg": 0, "w": 0, "f": 0, "hp": [0, 0, 0, 0], "srcsame": True}
         try:
-            out = lib.apply(name, v0 if fan else v)
+            arg = v0 if fan else v
+            before = alpha.angle_payload(arg)
+            out = lib.apply(name, arg)
+            ev["srcsame"] = alpha.angle_payload(arg) == before
             kind, asec, hp = decode(out, d)
             o = to_nano(asec)
             ev.update({"kind": kind if kind != "float64" else "float", "neg": o[0], "w": o[1], "f": o[2]})
